@@ -1,4 +1,6 @@
 """C11 - all-matches mode is a complete leftmost non-overlapping scan."""
+import os
+
 from hypothesis import assume, strategies as st
 
 from vlib import jasm_io
@@ -24,7 +26,7 @@ RULE = (
 )
 ASSUMPTIONS = ["reference matcher spans are complete (a set of ends per start)", "rules that can match the empty sequence are excluded (the statement quantifies over non-nullable patterns)"]
 FLOORS = {"overlapping": 0.12, "adjacent": 0.15, "candidates>=2": 0.35}
-TEMPLATES = ["a", "aa", "ab", "aba", "a-or", "a-times", "ab-times", "not-b", "any-ab", "aab", "abab", "cap-ii", "cap-op", "a-cap-cap"]
+TEMPLATES = ["a", "aa", "ab", "aba", "a-or", "a-times", "ab-times", "not-b", "any-ab", "aab", "abab", "cap-ii", "cap-op", "a-cap-cap", "a-run-ax", "a-run-ax"]
 
 
 def budget(tier):
@@ -45,6 +47,12 @@ def cases(draw):
     da = describe_inst(draw, ("0", a[0], a[2]), (True, False) if draw(st.booleans()) else (False, False))
     db = describe_inst(draw, ("0", b[0], b[2]), (False, False))
     t = draw(st.sampled_from(TEMPLATES))
+    if t == "a-run-ax":
+        # a ranged run of `a` followed by an item for `ax`, the same instruction with a longer mnemonic: the run's name fits
+        # `ax` too, so a run that could still grow has to give the instruction back to the next item
+        ax = [a[0] + draw(st.sampled_from(["q", "l", "zbl"])), list(a[1]), list(a[2])]
+        bodies = [a, b, ax]
+        k = 3
     pattern = {
         "a": [da],
         "aa": [da, da],
@@ -60,6 +68,7 @@ def cases(draw):
         "cap-ii": ["&i1", "&i1"],
         "cap-op": [{a[0]: ["&x1"]}, {a[0]: ["&x1"]}] if a[2] else ["&i1", "&i1"],
         "a-cap-cap": [da, "&i1", "&i1"],
+        "a-run-ax": [{a[0]: {"times": {"min": 1, "max": draw(st.integers(2, 4))}}}, (a[0] + "q") if len(bodies) < 3 else bodies[2][0]],
     }[t]
     n = draw(st.integers(4, 16))
     word = draw(st.lists(st.integers(0, k - 1), min_size=n, max_size=n))
@@ -124,9 +133,88 @@ def check_scan(ev, pattern, NV, full_all, first, spans, ctx=None):
     return rep
 
 
+def eval_timeout(case):
+    """Fault injection (harness side, no change to the repository): the `regex` module seen by jasm.consumer is wrapped so that
+    the scan raises TimeoutError after `timeout_after` hits (what the real engine does when its time budget runs out in the
+    middle of a long listing).  A scan that was cut short must surface as an error, never as a shorter list."""
+    import pickle
+    import regex as real_regex
+
+    k, search = case["timeout_after"], case["search"]
+    L = []
+    addr = 0x401000
+    for q in range(6):
+        for m, ops in (("nop", []), ("call", ["401000 <f>"]), ("ret", [])):
+            L.append((format(addr, "x"), m, ops))
+            addr += 3
+    text = render(L)
+
+    def child():
+        import jasm.consumer as jc
+
+        class Proxy:
+            def __getattr__(self, name):
+                return getattr(real_regex, name)
+
+            def finditer(self, *a, **kw):
+                it = real_regex.finditer(*a, **kw)
+
+                def gen():
+                    for n_, m_ in enumerate(it):
+                        if n_ >= k:
+                            raise TimeoutError("injected")
+                        yield m_
+
+                return gen()
+
+            def search(self, *a, **kw):
+                if k == 0:
+                    raise TimeoutError("injected")
+                return real_regex.search(*a, **kw)
+
+        jc.regex = Proxy()
+        return jasm_io.match(jasm_io.make_doc(["call", "ret"]), text, mode="list", search=search, only_addr=True)
+
+    r_, w_ = os.pipe()
+    pid = os.fork()
+    if pid == 0:
+        os.close(r_)
+        try:
+            out = child()
+        except BaseException as exc:  # noqa: BLE001
+            out = ("harness-error", repr(exc))
+        os.write(w_, pickle.dumps(out))
+        os._exit(0)
+    os.close(w_)
+    buf = b""
+    while True:
+        chunk = os.read(r_, 65536)
+        if not chunk:
+            break
+        buf += chunk
+    os.close(r_)
+    os.waitpid(pid, 0)
+    out = pickle.loads(buf)
+    ev = Eval()
+    ev.subcases = 1
+    ev.tags = ["injected-timeout"]
+    ev.nontrivial = True
+    ev.keys = [("timeout", k, search)]
+    if out[0] == "harness-error":
+        raise RuntimeError(out[1])
+    interrupted = (search == "all" and k < 6) or (search == "first" and k == 0)
+    if interrupted and out[0] == "ok":
+        ev.dev("scan-cut-short-by-timeout-reported-as-complete", timeout_after_hits=k, search=search, reported=out[1], complete_scan_has=6)
+    if not interrupted and (out[0] != "ok" or len(out[1]) != (6 if search == "all" else 1)):
+        ev.dev("uninterrupted-scan-differs", timeout_after_hits=k, search=search, outcome=list(out[:2]))
+    return ev
+
+
 def evaluate(case):
     if "long_listing" in case:
         return eval_long(case)
+    if "timeout_after" in case:
+        return eval_timeout(case)
     if "zone_cut" in case:
         return eval_zone(case)
     ev = Eval()
@@ -260,6 +348,11 @@ def extra(tier, seed, rep):
     with mp.get_context("fork").Pool(16, maxtasksperchild=1) as pool:
         for case, ev in pool.imap_unordered(_zone_worker, sorted(longlist.CUTS, reverse=True), chunksize=1):
             rep.add_eval(case, ev)
+    for k_ in (0, 1, 2, 5, 6, 9):
+        for search in ("all", "first"):
+            case = {"timeout_after": k_, "search": search}
+            rep.add_eval(case, eval_timeout(case))
+    rep.extra["injected_timeouts"] = {"after_hits": [0, 1, 2, 5, 6, 9], "searches": ["all", "first"]}
     rep.extra["zone_cuts"] = longlist.CUTS
     rep.exhaustive_parts.append(f"zone listings: all {len(longlist.CUTS)} chunk-size candidates x 4 straddling rules")
     import random
